@@ -70,6 +70,7 @@ type FuncSpec struct {
 	EntryGhosts []*GhostAssign // ghost NAME = expr : ghost updates performed on entry of the body
 	ReturnGhosts []*GhostAssign // ghost_return NAME = expr : ghost updates performed at every return (results bound)
 	Implements []string // interface-method contract keys this function is checked to satisfy
+	EffectsPrivate bool // callers in other packages see the call as effect-free (see callerView)
 }
 
 type GhostAssign struct {
@@ -357,6 +358,8 @@ func (fs *FuncSpec) addClause(t, file string, ln int) error {
 		fs.NoWrap = true
 	case "standalone":
 		fs.Standalone = true
+	case "effects_private":
+		fs.EffectsPrivate = true
 	case "panics":
 		fs.PanicsMay = rest == "may"
 	case "note":
